@@ -101,6 +101,23 @@ def make_cases(rng, tier):
     cid = 0
     g = StmtGen(rng)
     base_inj = g.inject() + [single_key_map()]
+    # the same compiled loop executed again with OTHER data: a first execution that runs into the iteration cap (or leaves the
+    # loop by return / by a failing statement) must leave nothing behind in the rule for the second one
+    def bounded(limit_field, body, ret=None):
+        return block([sfor(assign(("var", "i"), "=", ("math", mint(0))), mk_ecmp("<", emath(mvar("i")), emath(mvar(limit_field))),
+                           assign(("var", "i"), "+=", ("math", mint(1))), block(body))], ret if ret is not None else ("expr", emath(mvar("i"))))
+    hs = lambda n: inj_struct("hq", fields={"I64": tv_int("i64", n)})
+    for (first, second) in ((20000, 3), (10001, 9999), (9999, 10001), (3, 20000)):
+        c = make_case(cid, bounded("hq.I64", []), [hs(first)]); cid += 1
+        c["reinject"], c["inject2"] = True, [hs(second)]
+        cases.append(c)
+    for (first, second) in ((8, 8), (50, 2)):      # leaving by return / by a failing statement after a few passes, then again
+        c = make_case(cid, bounded("hq.I64", [sif(mk_ecmp(">=", emath(mvar("i")), emath(mint(5))), block([], ("expr", emath(mvar("i")))))]), [hs(first)]); cid += 1
+        c["reinject"], c["inject2"] = True, [hs(second)]
+        cases.append(c)
+        c = make_case(cid, bounded("hq.I64", [sif(mk_ecmp(">=", emath(mvar("i")), emath(mint(5))), block([assign(("var", "zz"), "=", ("math", mvar("nope")))]))]), [hs(first)]); cid += 1
+        c["reinject"], c["inject2"] = True, [hs(second)]
+        cases.append(c)
     for body in templates(g):
         cases.append(make_case(cid, body, base_inj)); cid += 1
     n_rand, depth = (300, 3) if tier == "quick" else (10000, 5)
